@@ -135,7 +135,11 @@ PROPS = {
             "parse code permitted by profile and version, consecutive picture numbers mod 2^32, even first field, whole frames, initial zero-slice fragment, same picture "
             "number across fragments, contiguous raster-order slices, no picture interleaved with a fragmented picture, fragmented pictures complete at end of sequence",
             "direction NOT proved in general: conformant => accepted (only assert_picture_number_incremented_as_expected, assert_major_version_is_minimal and the I/O "
-            "primitives carry exact 'raises iff' conditions)",
+            "primitives carry exact 'raises iff' conditions); BOUNDED stand-in for it: bounded/c01_histories.py compares the real validator with a reference monitor "
+            "on every ordering up to a small length over an 11-symbol unit alphabet x 12 configurations, offset / picture-number / fragment fault families, repeated "
+            "headers and levels (see bounded_checks)",
+            "record_bitstream_start / record_bitstream_finish (what sequence_header compares for 'byte-identical repeated sequence headers') are verified: the recording is "
+            "the bytes read since its start with the unread bits of the last byte zeroed",
             "NOT established: the level's data-unit ordering pattern (Matcher is an opaque trusted model; bounded-checked under C18) and byte-identical repeated sequence "
             "headers (the comparison is executed by verified code, but equality of recorded bytes is left uninterpreted)",
             "'every rejection is a conformance error' is C02",
@@ -143,8 +147,11 @@ PROPS = {
         manifest=dict(
             category="proof",
             technique="contract-based deductive verification: the stream-structure rules as postconditions / exact exceptional conditions of the validator functions, pyvc + z3",
-            text="Necessary conditions of acceptance, for all histories of data units (unbounded): every rule listed in the assumptions holds whenever parse_sequence returns normally.",
-            note="One direction only, see assumptions; level ordering patterns and header byte-identity are not established by this check.",
+            text="Necessary conditions of acceptance, for all histories of data units (unbounded): every rule listed in the assumptions holds whenever parse_sequence returns normally "
+                 "(proved).  The converse direction and the level ordering patterns are covered by a bounded stand-in only: a reference monitor written from the statement "
+                 "judges abstract data-unit histories and the real validator must agree in both directions (bounded/c01_histories.py).",
+            note="Proved in one direction only (accepted => conformant), see assumptions; conformant => accepted, level ordering patterns and header byte-identity are "
+                 "bounded-checked (exhaustive short histories x configurations, never counted as proved).",
         ),
     ),
     "C09": dict(
